@@ -9,4 +9,5 @@ func rulesC03(c *Ctx, r *Report) {
 	r.assume("SAM specification flag table embedded in the checker")
 	rulesFlags(c, r)
 	rulesSamCodec(c, r)
+	rulesNoBufferedPkg(c, r, "formats/sam")
 }
